@@ -28,7 +28,14 @@ static std::vector<int> split_choices(const std::string& s) {
 static void reset_for(const Harness& h) {
   cctz::time_zone::Impl::ClearTimeZoneMapTestOnly();
   bodies::world().reset_exec(h.threads.size());
-  for (auto& n : h.preload) { cctz::time_zone tz; cctz::load_time_zone(n, &tz); }
+  for (auto& n : h.preload) {
+    bodies::World& w = bodies::world();
+    w.cur_load.back() = n;
+    w.cur_thread.back() = pthread_self();
+    cctz::time_zone tz;
+    cctz::load_time_zone(n, &tz);
+    w.cur_load.back() = "";
+  }
 }
 
 static std::vector<Obs> sequential_reference(const Harness& h) {
